@@ -39,9 +39,9 @@ def dims(lo=1, hi=6):
 # ----------------------------------------------------------------------------
 # quaternion arrays
 
-PATTERNS = ("generic", "int", "pure_imag", "axis", "sparse", "unit", "scaled", "zero", "units")
+PATTERNS = ("generic", "int", "pure_imag", "axis", "sparse", "unit", "scaled", "zero", "units", "full53")
 WEIGHTED_PATTERNS = ("generic",) * 4 + ("int",) * 2 + ("pure_imag",) * 2 + ("sparse",) * 2 + ("scaled",) * 2 + (
-    "axis", "unit", "zero", "units", "units")
+    "axis", "unit", "zero", "units", "units", "full53", "full53")
 
 
 BASIS_UNITS = [np.array(v, dtype=float) for v in
@@ -62,7 +62,11 @@ def qarray(draw, m, n, pattern=None, emin=0, emax=0):
     if pattern == "zero":
         A = np.zeros(shape)
     elif pattern == "generic":
-        A = draw(_arr(shape, dyadic(0, 0, 160)))
+        if draw(st.integers(0, 3)) == 0:
+            # one generic matrix in four carries full 53-bit mantissas (see "full53" below)
+            A = draw(_arr(shape, st.integers(-2 ** 52, 2 ** 52).map(lambda k: k / 2.0 ** 50)))
+        else:
+            A = draw(_arr(shape, dyadic(0, 0, 160)))
     elif pattern == "int":
         A = draw(_arr(shape, small_ints()))
     elif pattern == "pure_imag":
@@ -95,6 +99,10 @@ def qarray(draw, m, n, pattern=None, emin=0, emax=0):
         A = draw(_arr(shape, dyadic(0, 0, 64)))
         e = draw(st.integers(emin, emax))
         A = A * 10.0 ** e
+    elif pattern == "full53":
+        # full 53-bit mantissas in [-4, 4] (k / 2^50): the other patterns are short dyadic numbers, exactly
+        # representable in float32 / float16, which would hide a reduced-precision or prematurely rounded intermediate
+        A = draw(_arr(shape, st.integers(-2 ** 52, 2 ** 52).map(lambda k: k / 2.0 ** 50)))
     else:
         raise ValueError(pattern)
     return np.ascontiguousarray(A, dtype=float), pattern
@@ -260,8 +268,8 @@ def seeds():
 # ----------------------------------------------------------------------------
 # long dimensions: sizes that cross the usual blocking / chunking thresholds (32, 64, 128, 256, 512).  Thousands of
 # entries drawn one by one through Hypothesis would be the whole budget, so the entries come from a PRNG seeded with
-# a DRAWN integer (the case stores the matrix itself, replay does not depend on the PRNG); values are dyadic
-# (multiples of 1/32 in [-4, 4]) so the exact rational oracles stay cheap.
+# a DRAWN integer (the case stores the matrix itself, replay does not depend on the PRNG); values carry full 53-bit
+# mantissas (pattern "dyadic": multiples of 1/32) - exact rational oracles accept any double.
 
 LONG_DIMS = (33, 63, 64, 65, 100, 127, 129, 200, 255, 256, 257, 300, 511, 513, 600)
 
@@ -274,14 +282,16 @@ def long_dim(draw, cap=None):
 
 @st.composite
 def long_qarray(draw, m, n, pattern=None):
-    """(m,n,4) dyadic array from a PRNG seeded with a drawn integer; patterns generic / int / sparse / pure_imag."""
+    """(m,n,4) array from a PRNG seeded with a drawn integer; patterns generic / int / sparse / pure_imag / dyadic."""
     if pattern is None:
         pattern = draw(st.sampled_from(["generic", "generic", "int", "sparse", "pure_imag"]))
     rng = np.random.RandomState(draw(seeds()))
     if pattern == "int":
         A = rng.randint(-4, 5, size=(m, n, 4)).astype(float)
-    else:
+    elif pattern == "dyadic":
         A = rng.randint(-128, 129, size=(m, n, 4)).astype(float) / 32.0
+    else:
+        A = rng.uniform(-4.0, 4.0, size=(m, n, 4))          # full 53-bit mantissas (not float32-representable)
     if pattern == "sparse":
         A = A * (rng.rand(m, n) < 0.3)[..., None]
     elif pattern == "pure_imag":
